@@ -144,45 +144,83 @@ func (p *Program) NewLabel() Label {
 // Assemble resolves all jump destinations to concrete instructions using the labels.
 // This method takes care of long jumps and resolves them by using early returns or unconditional long jumps.
 func (p *Program) Assemble() ([]bpf.Instruction, error) {
+	// A jump that continues with the next instruction on both branches is a mistake of the caller.
+	// This is checked first: once long jumps are bridged, both skips can legitimately be zero.
+	for _, jump := range p.jumps {
+		if p.isNext(jump, jump.trueLabel) && p.isNext(jump, jump.falseLabel) {
+			return nil, fmt.Errorf("useless jump found")
+		}
+	}
+
+	// Inserting an instruction moves the destinations of the jumps resolved before it.
+	// Repeat until a pass inserts nothing; the skips computed by that pass are final.
+	for {
+		size := len(p.instructions)
+		if err := p.resolveJumps(); err != nil {
+			return nil, err
+		}
+		if len(p.instructions) == size {
+			return p.instructions, nil
+		}
+	}
+}
+
+func (p *Program) resolveJumps() error {
 	for _, jump := range p.jumps {
 		// This is safe since we are only accessing instructions that were inserted as bpf.JumpIf.
 		jumpInst := p.instructions[jump.index].(bpf.JumpIf)
 
 		skip, err := p.resolveLabel(jump, jump.trueLabel)
 		if err != nil {
-			return nil, err
+			return err
 		}
 		jumpInst.SkipTrue = skip
 
 		skip, err = p.resolveLabel(jump, jump.falseLabel)
 		if err != nil {
-			return nil, err
+			return err
 		}
 		jumpInst.SkipFalse = skip
-
-		if jumpInst.SkipTrue == 0 && jumpInst.SkipFalse == 0 {
-			return nil, fmt.Errorf("useless jump found")
-		}
 
 		p.instructions[jump.index] = jumpInst
 	}
 
-	return p.instructions, nil
+	// An inserted long jump leads to the next destination of its label.
+	for _, dest := range p.labels {
+		for i := 0; i+1 < len(dest); i++ {
+			if _, ok := p.instructions[dest[i]].(bpf.Jump); ok {
+				p.instructions[dest[i]] = bpf.Jump{Skip: uint32(dest[i+1] - dest[i] - 1)}
+			}
+		}
+	}
+	return nil
+}
+
+// nextDest returns the position, in the destination list of the label, of the first destination behind the jump.
+// Destinations in front of the jump belong to earlier jumps.
+func (p *Program) nextDest(jump JumpIf, label Label) (int, error) {
+	for n, index := range p.labels[label] {
+		if index > jump.index {
+			return n, nil
+		}
+	}
+	return 0, fmt.Errorf("backward jumps are not supported")
+}
+
+// isNext reports whether the label marks the instruction that follows the jump.
+func (p *Program) isNext(jump JumpIf, label Label) bool {
+	n, err := p.nextDest(jump, label)
+	return err == nil && p.labels[label][n] == jump.index+1
 }
 
 // resolveLabel resolves the label to a short jump.
 func (p *Program) resolveLabel(jump JumpIf, label Label) (uint8, error) {
-	dest := p.labels[label]
-	skipN := p.computeSkipN(jump, label)
-
-	for skipN < 0 {
-		dest = dest[1:]
-		if len(dest) == 0 {
-			return 0, fmt.Errorf("backward jumps are not supported")
-		}
-		p.labels[label] = dest
-		skipN = p.computeSkipN(jump, label)
+	n, err := p.nextDest(jump, label)
+	if err != nil {
+		return 0, err
 	}
+	dest := p.labels[label]
+	skipN := int(dest[n]-jump.index) - 1
 
 	// BPF does not support long conditional jumps.
 	if skipN > math.MaxUint8 {
@@ -190,14 +228,16 @@ func (p *Program) resolveLabel(jump JumpIf, label Label) (uint8, error) {
 
 		// If the jump destination is a return instruction, copy it and add an early return,
 		// if not, insert a long jump.
-		jumpDest := p.instructions[dest[0]]
+		jumpDest := p.instructions[dest[n]]
 		if _, ok := jumpDest.(bpf.RetConstant); !ok {
 			jumpDest = bpf.Jump{Skip: uint32(skipN - int(insertAfter.index-jump.index))}
 		}
 
 		insertIndex := p.insertAfter(insertAfter.index, jumpDest)
-		p.labels[label] = append([]Index{insertIndex}, dest...)
-		skipN = p.computeSkipN(jump, label)
+		dest = p.labels[label]
+		dest = append(dest[:n:n], append([]Index{insertIndex}, dest[n:]...)...)
+		p.labels[label] = dest
+		skipN = int(dest[n]-jump.index) - 1
 	}
 	return uint8(skipN), nil
 }
@@ -231,13 +271,6 @@ func (p *Program) updateIndices(after Index) {
 			}
 		}
 	}
-}
-
-// Computes the number of instructions to skip by resolving the label.
-// It might be that the jump is a long jump.
-func (p *Program) computeSkipN(jump JumpIf, label Label) int {
-	dest := p.labels[label]
-	return int(dest[0]-jump.index) - 1
 }
 
 // To insert a new instruction into the instruction list, the furthest jump instruction within
